@@ -16,6 +16,7 @@ Model values (JSON):
   ref    -> None | v            unionref -> None | [member_index, v]
 """
 
+import copy
 import itertools
 import math
 
@@ -157,6 +158,8 @@ def type_labels(spec):
             lb.add("has_unionref")
         elif k == "string":
             lb.add("has_string")
+        if s.get("huge"):
+            lb.add("huge_array")
     lb.add(f"depth_{min(maxdepth, 4)}")
     return lb
 
@@ -264,6 +267,9 @@ def _draw_type(draw, cfg, namer, budget, depth, kind, elems):
             fields.append([f"f{i}", ft])
         return {"k": "struct", "name": name, "fields": fields}
     if kind == "array":
+        if cfg.is_big and elems == 1 and cfg.allow_dynamic and draw(st.integers(0, 5)) == 0:
+            # a "huge" array: one dynamic axis of 8191 .. 20000 numbers (objects of 64 KiB .. 160 KiB, not a multiple of 64 KiB)
+            return {"k": "array", "name": None, "item": {"k": "scalar", "t": draw(st.sampled_from(cfg.scalars))}, "shape": [None], "order": [0], "huge": 1}
         nd = draw(st.sampled_from([1, 1, 2, 2, 3])) if cfg.allow_nd else 1
         shape = []
         room = max(1, cfg.max_elems // max(1, elems))
@@ -364,6 +370,16 @@ def texts(cfg):
     return _text
 
 
+HUGE_EXTENTS = [8191, 8200, 12345, 16385, 20000]
+
+
+def array_shape(draw, spec, cfg):
+    """runtime shape of an array value"""
+    if spec.get("huge"):
+        return [draw(st.sampled_from(HUGE_EXTENTS))]
+    return [draw(dyn_extents(cfg)) if d is None else d for d in spec["shape"]]
+
+
 def pooled(draw, n, draw_one):
     """n values; beyond 12 they are a drawn pool of <= 6 values repeated with a stride (keeps Hypothesis' choice
     sequence short for big arrays while neighbouring items still differ)"""
@@ -371,7 +387,8 @@ def pooled(draw, n, draw_one):
         return [draw_one() for _ in range(n)]
     pool = [draw_one() for _ in range(draw(st.integers(2, 6)))]
     step = draw(st.sampled_from([1, 5, 7]))
-    return [pool[(i * step) % len(pool)] for i in range(n)]
+    # copies: model values are updated in place by the checks, so no two items may be the same Python object
+    return [copy.deepcopy(pool[(i * step) % len(pool)]) for i in range(n)]
 
 
 @st.composite
@@ -389,7 +406,7 @@ def _draw_value(draw, spec, cfg):
     if k == "struct":
         return {fn: _draw_value(draw, ft, cfg) for fn, ft in spec["fields"]}
     if k == "array":
-        shape = [draw(dyn_extents(cfg)) if d is None else d for d in spec["shape"]]
+        shape = array_shape(draw, spec, cfg)
         n = math.prod(shape)
         return {"shape": shape, "flat": pooled(draw, n, lambda: _draw_value(draw, spec["item"], cfg))}
     if k == "ref":
